@@ -25,6 +25,10 @@ Part H  histories: for every hierarchy with n <= 2 (n = 3 in thorough; <= 2 base
         with the observation the same access gives on an untouched hierarchy; an unmerged
         search to depth 2 cross-checks the canonicalisation.
 
+Measured (16 workers; CPU seconds because the box was shared): quick 63 192 cases / 1.10 M reads,
+~310 core-s (~20 s wall on 16 idle cores); thorough ~487 000 cases / ~13 M reads, ~4 800 core-s (~5 min).
+Failure identities are "<part>/<oracle clause>/<n or attribute>"; the smallest failing hierarchy is kept.
+
 Oracle (only what the statement fixes)
   * media: per medium (js, css "all", css "print", ...) the set of files equals the union of
     the files declared by the contributing classes (own Media + transitively the bases
@@ -50,7 +54,9 @@ Agnostic / excluded corners
   * Never generated: one css file under two media, lists with internal duplicates,
     explicit `js = None`, missing `*_file` targets, bytes / Path / callable / SafeString
     entries, extend lists naming later classes or repeating a class, `template_name`
-    together with `template_file`.
+    together with `template_file`, plain (non-Component) mixins carrying a Media, a custom
+    `media_class`, Media subclassing another Media, classes of one hierarchy in different
+    directories.
 """
 from __future__ import annotations
 
@@ -62,7 +68,6 @@ import sys
 import tempfile
 import types
 import warnings
-from collections import Counter
 
 from mc import boot, par, seq
 
@@ -581,7 +586,7 @@ def run_media_case(agg, part, idx, spec, orders, tags=False, verbose=False):
             problem = w.model.check(c, "media", obs)
             if problem is None and oi == 0 and w.model.agnostic(c):
                 a_ok = w.model._check_media_reading(obs, w.model.contrib(c, "A")) is None
-                agg.extra["agnostic_class_follows_own_Media_reading" if a_ok else "agnostic_class_follows_attribute_lookup_reading"] += 1
+                agg.extra["agnostic_obs_matching_own_Media_reading" if a_ok else "agnostic_obs_matching_only_attribute_lookup_reading"] += 1
             if problem is None and c in first and first[c][0] != obs:
                 problem = ("access-order", f"media of class {c} is {obs[1:]} in access order {order} but "
                                            f"{first[c][0][1:]} in access order {first[c][1]}")
